@@ -488,6 +488,27 @@ func runLocalRoundOnce(c *Ctx, round int, g c12Cfg, reqs []c12Req, ovrs []*c12Ov
 			return // do not let it meet other jobs
 		}
 	}
+	// What Enqueue will be handed must not be negative (Props.C12.normalized_amounts_fit): a
+	// negative Acquire corrupts the semaphore's books and the next Release of anybody panics
+	// inside the job manager's own goroutine, which would take the whole run down with it.
+	for _, j := range jobs {
+		jobDef := j.req.resources()
+		fq := fmt.Sprintf("ID.c12.PIPE.ST%d", j.id)
+		res := core.VerifNodeJobReqs(ljm, ljm, ov, fq, true, nil, &jobDef, core.STAGE_TYPE_CHUNK)
+		if res.Threads < 0 || res.MemGB < 0 || (res.VMemGB < 0 && limits[2] > 0) {
+			in2 := map[string]interface{}{}
+			for k2, v2 := range input {
+				in2[k2] = v2
+			}
+			in2["job"] = reqDesc[j.id]
+			in2["resources_handed_to_Enqueue"] = res
+			r.violate(Violation{Kind: "property", Key: "C12:local:negative-reservation",
+				What:   fmt.Sprintf("job %d: Node.setChunkJobReqs / GetSystemReqs hand Enqueue a negative amount (threads %g, mem %g GB, vmem %g GB): the job would hold a negative reservation", j.id, res.Threads, res.MemGB, res.VMemGB),
+				Input:  in2,
+				Expect: "0 <= every amount <= its limit (Props.C12.normalized_amounts_fit)"})
+			return // do not let it meet other jobs
+		}
+	}
 	for _, j := range jobs {
 		script := fmt.Sprintf("echo S %d >> %s; while [ ! -e %s/go ]; do sleep 0.01; done; echo E %d >> %s", j.id, logPath, j.dir, j.id, logPath)
 		jobDef := j.req.resources()
